@@ -26,7 +26,9 @@ def run(ctx):
         'with it), appends a null element for levels above the outer field\'s own, makes the row None for level 0 of an '
         'optional field, and treats entries collected before the first row start as the continuation of the previous '
         'page\'s last row (known finding K15a: it tests the value cursor instead of the collected entries); (R15.6) map '
-        'rows are dict(zip(keys, values)) or None.')
+        'rows are dict(zip(keys, values)) or None; (R15.7) on v2 pages the definition levels of a repeated column are decoded '
+        'whatever the page\'s null count; (R15.8) every value arm of the v2 reader that a repeated column can reach assembles '
+        'records or refuses them (the PLAIN arm does neither: known finding K15b).')
     ctx.not_decided = ('the lists / dicts produced for arbitrary repetition and definition level arrays (the loop is data '
                        'dependent; only its branch conditions are compared with the algorithm), dictionary dereference, '
                        'nesting deeper than one level (refused elsewhere)')
